@@ -128,7 +128,7 @@ PROPS = {
                 dict(module="MC_SM2Kex", cfg="MC_SM2Kex_neg", expect="violation", about="negative: a validity test that accepts the point at infinity must be refuted")],
         stages=[dict(suite="sm2kex", nda="validate", trace="TraceSM2", plan=dict(module="PlanKex"),
                      required_classes={"both": ["kx.step2/step2.none", "kx.step3/step3.none", "kx.step4/step4.none", "kx.step2/step2.offcurve", "kx.step2/step2.infinity",
-                                                "kx.step3/step3.bitflip", "kx.step4/step4.other", "kx.step2/step2.rerand", "kx.step3/step3.offcurve-forged", "kx.step2/step2.vzero"]})],
+                                                "kx.step3/step3.bitflip", "kx.step4/step4.other", "kx.step2/step2.rerand", "kx.step3/step3.offcurve-forged", "kx.step2/step2.vzero", "kx.step2/step2.tzero"]})],
         assumptions=["SM2.tla transcribes GB/T 32918.3 with w = 127 and one-byte tags (GM/T 0003.5 Annex values as ASSUMEs)"],
     ),
     "C14": dict(
@@ -151,7 +151,7 @@ PROPS = {
                 dict(module="MC_DerInt", cfg="MC_DerInt_onezero", expect="violation", workers=2, about="negative: restoring at most one dropped zero digit must be refuted"),
                 dict(module="AnchorSM2Codec", anchor=True, about="SM2Codec.tla reproduces the OpenSSL-made SPKI/PKCS#8 DER+PEM and decodes/re-encodes/decrypts the 18 OpenSSL GM/T 0009 ciphertexts")],
         stages=[dict(suite="sm2codec", nda="validate", trace="TraceSM2",
-                     required_classes={"both": ["codec.encode/encode.plain", "codec.decode/decode.pk_bytes.roundtrip", "codec.decode/decode.spki_pem.openssl", "codec.decode/decode.pkcs8_pem.openssl",
+                     required_classes={"both": ["codec.encode/encode.plain", "codec.decode/decode.pk_bytes.roundtrip", "codec.decode/decode.pkcs8_der.compressed-pub", "codec.decode/decode.pkcs8_der.no-pub", "codec.decode/decode.spki_der.compressed-pub", "codec.decode/decode.pkcs8_pem.compressed-pub", "codec.decode/decode.spki_pem.compressed-pub", "codec.decode/decode.spki_pem.openssl", "codec.decode/decode.pkcs8_pem.openssl",
                                                 "codec.decode/decode.pk_bytes.off-curve", "codec.asn1_enc/asn1.enc.x-lead0x1", "codec.asn1_enc/asn1.enc.y-lead0x1", "codec.asn1_enc/asn1.enc.x-lead0x2", "codec.asn1_enc/asn1.enc.y-lead0x2", "codec.asn1_dec/asn1.dec.openssl"]})],
         assumptions=["SM2Codec.tla: SEC1 / hex / SPKI / PKCS#8 templates / PEM / GM/T 0009 DER, anchored by OpenSSL-made documents (committed corpus, not a live OpenSSL)"],
     ),
@@ -251,7 +251,7 @@ PROPS = {
                 dict(module="MC_Mont", about="register-level Montgomery mul / add / sub with R = 2^7")],
         stages=[dict(suite="sm9arith", nda="compare", trace="TraceSM9", timeout=3400,
                      required_classes={"both": ["gt.pow/gt.pow.fp12.sparse", "gt.pow/gt.pow.fp12.e=N-2", "tower.op/fp2.inv.z0x", "tower.op/fp2.mul.zxx", "tower.op/fp4.inv.z0x0x", "tower.op/fp12.mul.mfff", "modn.op/modn.mul.near-modulus",
-                                                "g1.op/g1.add.P=Q.jac-jac", "g1.op/g1.add.P=-Q.jac-jac", "g2.op/g2.add.P=Q.jac-jac", "g2.op/g2.equals.P=-Q.jac-jac", "g2.op/g2.add.generic.affine-jac",
+                                                "g1.op/g1.add.P=Q.jac-jac", "g1.op/g1.add.P=-Q.jac-jac", "g2.op/g2.add.P=Q.jac-jac", "g2.op/g2.equals.P=-Q.jac-jac", "g2.op/g2.add.generic.affine-jac", "g2.op/g2.add_full.generic.same-y-jac", "g2.op/g2.add.generic.same-y-affine", "g2.op/g2.add.generic.specialz=-1", "g2.op/g2.add_full.generic.specialz=u",
                                                 "booth/booth.w5.recode", "booth/booth.w7.recode", "g1.table/table.entry", "g1.table/table.row-base"]})],
         assumptions=["BN.tla: Fp12 as the polynomial ring Fp[w]/(w^12+2); tower elements are judged through the embedding u = w^6, v = w^3"],
     ),
